@@ -942,3 +942,17 @@ def value_cases(b, i, j, st):
         if len(whole) > 1:
             return [(strip(b._def_term(d)), d[1]) for d in whole]
     return [(t, i)]
+
+
+def case_values(b, t, depth=4):
+    """the values a term can stand for, one per definition of every local in it that is assigned on several paths (the
+    top-level alternatives only: `match e { A => v1, B => v2 }` gives [v1, v2])"""
+    t = strip(t)
+    if isinstance(t, tuple) and t[0] == 'var' and t[1] == b.path and depth > 0:
+        whole = [d for d in b.defs().get(t[2], []) if d[4]]
+        if len(whole) > 1:
+            out = []
+            for d in whole:
+                out.extend(case_values(b, b._def_term(d), depth - 1))
+            return out
+    return [t]
